@@ -19,6 +19,11 @@
 (*                preset with a strength as exact piecewise-linear maps on  *)
 (*                a half-integer lattice; invariants: closest point /       *)
 (*                variational inequality / sub-gradient optimality.         *)
+(*                Bounds of a box are EXTENDED reals: a rational or the     *)
+(*                sentinel PInf / NInf (emitted as "Inf" / "-Inf"); the box *)
+(*                projection is the componentwise PIECEWISE map             *)
+(*                   x < lower -> lower,  x > upper -> upper,  else x       *)
+(*                so one-sided and unbounded boxes have a finite image.     *)
 (*  kind "kkt"  : regularised least-squares problems CONSTRUCTED from their *)
 (*                KKT system: xs, g in dh(xs), unimodular A,                *)
 (*                b = A xs + A^-T g; invariant: xs is a fixed point of      *)
@@ -227,31 +232,68 @@ ILat2(lo, hi) == { <<R(a), R(b)>> : a \in lo..hi, b \in lo..hi }
 
 RSign(a) == IF a[1] > 0 THEN One ELSE IF a[1] < 0 THEN QNeg(One) ELSE Zero
 Soft(a, th) == QMul(RSign(a), RMax(QSub(RAbs(a), th), Zero))      \* sign(a) max(|a| - th, 0)
-Clip(a, lo, up) == RMin(RMax(a, lo), up)
+Clip(a, lo, up) == RMin(RMax(a, lo), up)                           \* finite bounds only
 
-\* bounds: "default" (code: lower None -> 0, upper None -> 1), a scalar pair, or vectors
-Boxes2 == { [name |-> "default", lo |-> <<Zero, Zero>>, up |-> <<One, One>>],
-            [name |-> "scalar",  lo |-> <<QNeg(One), QNeg(One)>>, up |-> <<Half, Half>>],
-            [name |-> "vector",  lo |-> <<QNeg(One), Zero>>, up |-> <<Zero, Half3>>] }
+\* ---- extended reals for the bounds of a box ------------------------------
+\* +infinity / -infinity as sentinels (a normalised rational never has denominator 0); no arithmetic is defined on
+\* them, only the order.  JSON form: "Inf" / "-Inf".
+PInf == <<1, 0>>
+NInf == <<-1, 0>>
+IsFin(a) == a[2] # 0
+ELe(a, b) == IF a = NInf \/ b = PInf THEN TRUE ELSE IF a = PInf \/ b = NInf THEN FALSE ELSE RLe(a, b)
+ELt(a, b) == ~ELe(b, a)
+Ext(a) == IF a = PInf THEN "Inf" ELSE IF a = NInf THEN "-Inf" ELSE a
+\* an admissible box: lower <= upper, lower < +inf, upper > -inf (non-empty subset of the reals)
+BoxOk(lo, up) == \A i \in 1..Len(lo) : ELe(lo[i], up[i]) /\ lo[i] # PInf /\ up[i] # NInf
 
+\* Euclidean projection of the finite number a onto [lo, up]: the piecewise definition
+BoxProj1(a, lo, up) == IF ELt(a, lo) THEN lo ELSE IF ELt(up, a) THEN up ELSE a
+BoxProj(x, lo, up) == F([i \in 1..Len(x) |-> BoxProj1(x[i], lo[i], up[i])])
+InBox(z, lo, up) == \A i \in 1..Len(z) : ELe(lo[i], z[i]) /\ ELe(z[i], up[i])
+
+\* boxes: lo / up are the EFFECTIVE bounds; form = how <<lower, upper>> are handed over:
+\*   "none" (argument left out: the documented defaults lower = 0, upper = 1), "scalar" (one number, possibly +-inf,
+\*   for all components), "vector" (one bound per component)
+Bx(name, lf, uf, lo, up) == [name |-> name, form |-> <<lf, uf>>, lo |-> lo, up |-> up]
+Boxes2 == { Bx("default", "none", "none",     <<Zero, Zero>>, <<One, One>>),
+            Bx("scalar",  "scalar", "scalar", <<QNeg(One), QNeg(One)>>, <<Half, Half>>),
+            Bx("vector",  "vector", "vector", <<QNeg(One), Zero>>, <<Zero, Half3>>),
+            \* one default, the other bound given
+            Bx("lower_given",  "scalar", "none", <<QNeg(Half), QNeg(Half)>>, <<One, One>>),
+            Bx("upper_given",  "none", "vector", <<Zero, Zero>>, <<Half, Half3>>),
+            \* one-sided and unbounded boxes
+            Bx("lower_only_scalar", "scalar", "scalar", <<QNeg(Half), QNeg(Half)>>, <<PInf, PInf>>),
+            Bx("upper_only_scalar", "scalar", "scalar", <<NInf, NInf>>, <<Half, Half>>),
+            Bx("lower_only_vector", "vector", "vector", <<QNeg(One), Half>>, <<PInf, PInf>>),
+            Bx("upper_only_vector", "vector", "vector", <<NInf, NInf>>, <<Zero, Half3>>),
+            Bx("orthant",           "scalar", "scalar", <<Zero, Zero>>, <<PInf, PInf>>),
+            Bx("free_scalar",       "scalar", "scalar", <<NInf, NInf>>, <<PInf, PInf>>),
+            Bx("free_vector",       "vector", "vector", <<NInf, NInf>>, <<PInf, PInf>>),
+            Bx("mixed_vector",      "vector", "vector", <<NInf, QNeg(Half)>>, <<Half, PInf>>),
+            Bx("mixed_vector2",     "vector", "vector", <<Zero, NInf>>, <<One, PInf>>),
+            Bx("mixed_forms",       "scalar", "vector", <<NInf, NInf>>, <<Half, PInf>>),
+            Bx("default_lower_inf_upper", "none", "scalar", <<Zero, Zero>>, <<PInf, PInf>>),
+            Bx("inf_lower_default_upper", "scalar", "none", <<NInf, NInf>>, <<One, One>>) }
+
+NoBox == [form |-> <<"none", "none">>, lo |-> <<Zero, Zero>>, up |-> <<Zero, Zero>>]
 ProxCases ==
        { [kind |-> "prox", op |-> "nonneg", x |-> x, th |-> Zero, gam |-> Zero, lam |-> Zero, box |-> "none",
-          lo |-> <<Zero, Zero>>, up |-> <<Zero, Zero>>] : x \in Lat2(-2, 2) }
+          form |-> NoBox.form, lo |-> NoBox.lo, up |-> NoBox.up] : x \in Lat2(-2, 2) }
   \cup { [kind |-> "prox", op |-> "box", x |-> x, th |-> Zero, gam |-> Zero, lam |-> Zero, box |-> bx.name,
-          lo |-> bx.lo, up |-> bx.up] : x \in Lat2(-2, 2), bx \in Boxes2 }
+          form |-> bx.form, lo |-> bx.lo, up |-> bx.up] : x \in Lat2(-2, 2), bx \in Boxes2 }
   \cup { [kind |-> "prox", op |-> "l1", x |-> x, th |-> g, gam |-> g, lam |-> One, box |-> "none",
-          lo |-> <<Zero, Zero>>, up |-> <<Zero, Zero>>] : x \in Lat2(-2, 2), g \in {Zero, Half, One, Half3} }
+          form |-> NoBox.form, lo |-> NoBox.lo, up |-> NoBox.up] : x \in Lat2(-2, 2), g \in {Zero, Half, One, Half3} }
   \cup { [kind |-> "prox", op |-> "l1s", x |-> x, th |-> QMul(g, l), gam |-> g, lam |-> l, box |-> "none",
-          lo |-> <<Zero, Zero>>, up |-> <<Zero, Zero>>] : x \in Lat2(-2, 2), g \in {Half, One}, l \in {Half, Two} }
+          form |-> NoBox.form, lo |-> NoBox.lo, up |-> NoBox.up] : x \in Lat2(-2, 2), g \in {Half, One}, l \in {Half, Two} }
 
 ProxOut(c) ==
     CASE c.op = "nonneg"          -> F([i \in 1..2 |-> RMax(c.x[i], Zero)])
-      [] c.op = "box"             -> F([i \in 1..2 |-> Clip(c.x[i], c.lo[i], c.up[i])])
+      [] c.op = "box"             -> BoxProj(c.x, c.lo, c.up)
       [] c.op \in {"l1", "l1s"}   -> F([i \in 1..2 |-> Soft(c.x[i], c.th)])
 
 InSet(c, z) ==
     CASE c.op = "nonneg" -> \A i \in 1..2 : RLe(Zero, z[i])
-      [] c.op = "box"    -> \A i \in 1..2 : RLe(c.lo[i], z[i]) /\ RLe(z[i], c.up[i])
+      [] c.op = "box"    -> InBox(z, c.lo, c.up)
       [] OTHER           -> TRUE
 
 L1(z) == QAdd(RAbs(z[1]), RAbs(z[2]))
@@ -266,6 +308,29 @@ ProjectionExact ==
               /\ RLe(DistSq(pb.x, out), DistSq(pb.x, z))
               /\ RLe(QDot(QVSub(pb.x, out), QVSub(z, out)), Zero)
 
+\* laws of the piecewise box projection with extended bounds: the image of a finite point is finite, the map is
+\* idempotent and the identity on the box, every component is the nearest point of [lo_i, up_i] (among the half-integers
+\* of a larger window), and it agrees with the closed forms min(max(x, lo), up) / max(x, lo) / min(x, up) / x on
+\* two-sided / lower-only / upper-only / unbounded components.  [0, +inf)^n is the non-negative orthant.
+BoxProjectionLaws ==
+    (Run("prox") /\ pb.op = "box") =>
+        LET out == ProxOut(pb)  lo == pb.lo  up == pb.up IN
+        /\ BoxOk(lo, up)
+        /\ \A i \in 1..2 : IsFin(out[i])
+        /\ BoxProj(out, lo, up) = out
+        /\ (InBox(pb.x, lo, up) => out = pb.x)
+        /\ \A i \in 1..2 : \A w \in HalfInts(-3, 3) :
+              (ELe(lo[i], w) /\ ELe(w, up[i])) => RLe(RAbs(QSub(pb.x[i], out[i])), RAbs(QSub(pb.x[i], w)))
+        /\ \A i \in 1..2 :
+              out[i] = IF IsFin(lo[i]) /\ IsFin(up[i]) THEN Clip(pb.x[i], lo[i], up[i])
+                       ELSE IF IsFin(lo[i]) THEN RMax(pb.x[i], lo[i])
+                       ELSE IF IsFin(up[i]) THEN RMin(pb.x[i], up[i])
+                       ELSE pb.x[i]
+        /\ ((lo = <<Zero, Zero>> /\ up = <<PInf, PInf>>) => out = F([i \in 1..2 |-> RMax(pb.x[i], Zero)]))
+        /\ (\A i \in 1..2 : pb.form[1] = "none" => lo[i] = Zero)               \* documented defaults
+        /\ (\A i \in 1..2 : pb.form[2] = "none" => up[i] = One)
+        /\ (pb.form[1] = "scalar" => lo[1] = lo[2]) /\ (pb.form[2] = "scalar" => up[1] = up[2])
+
 \* proximal map of th*|.|_1: minimiser of 1/2|z-x|^2 + th|z|_1 on the lattice, and sub-gradient optimality
 ProxL1Exact ==
     (Run("prox") /\ pb.op \in {"l1", "l1s"}) =>
@@ -275,10 +340,12 @@ ProxL1Exact ==
            /\ \A i \in 1..2 : IF out[i] # Zero THEN QSub(pb.x[i], out[i]) = QMul(pb.th, RSign(out[i]))
                                              ELSE RLe(RAbs(pb.x[i]), pb.th)
 
+ExtV(v) == [i \in 1..Len(v) |-> Ext(v[i])]
 EmitProx ==
     (Emit /\ Run("prox")) =>
         PrintT("@@CASE " \o ToJson([kind |-> "prox", op |-> pb.op, x |-> pb.x, gam |-> pb.gam, lam |-> pb.lam,
-                                    box |-> pb.box, lo |-> pb.lo, up |-> pb.up, out |-> ProxOut(pb)]) \o " @@END")
+                                    box |-> pb.box, form |-> pb.form, lo |-> ExtV(pb.lo), up |-> ExtV(pb.up),
+                                    out |-> ProxOut(pb)]) \o " @@END")
 
 (***************************************************************************)
 (* kind "kkt": problems constructed from their optimality system           *)
@@ -290,39 +357,67 @@ Unimod2All == { A \in IMats(2, 2, {-1, 0, 1, 2}) : Det2(A) \in {-1, 1} }
 Unimod3 == { <<<<1, 0, 0>>, <<1, 1, 0>>, <<0, -1, 1>>>>, <<<<1, 1, 0>>, <<0, 1, -1>>, <<1, 1, 1>>>>,
              <<<<0, 1, 0>>, <<-1, 0, 1>>, <<0, 0, 1>>>> }
 
-\* regularisers: [h |-> "l1", lam], [h |-> "nonneg"], [h |-> "box", lo, up] (scalar bounds)
-Regs == { [h |-> "l1", lam |-> One, lo |-> Zero, up |-> Zero], [h |-> "l1", lam |-> Half, lo |-> Zero, up |-> Zero],
-          [h |-> "l1", lam |-> Two, lo |-> Zero, up |-> Zero],
-          [h |-> "nonneg", lam |-> Zero, lo |-> Zero, up |-> Zero],
-          [h |-> "box", lam |-> Zero, lo |-> Zero, up |-> One], [h |-> "box", lam |-> Zero, lo |-> QNeg(One), up |-> Two] }
+\* regularisers: [h |-> "l1", lam], [h |-> "nonneg"], [h |-> "box", bform, lo, up]:
+\*   bform "scalar": the extended reals lo / up bound every component;
+\*   bform "vector": component i is bounded by vlo[i] / vup[i] (the first n entries are used).
+\* One-sided and unbounded boxes have PInf / NInf bounds; the solution and its multipliers stay finite.
+Rg(h, lam, bf, lo, up, vlo, vup) == [h |-> h, lam |-> lam, bform |-> bf, lo |-> lo, up |-> up, vlo |-> vlo, vup |-> vup]
+Regs == { Rg("l1", One, "none", Zero, Zero, <<>>, <<>>), Rg("l1", Half, "none", Zero, Zero, <<>>, <<>>),
+          Rg("l1", Two, "none", Zero, Zero, <<>>, <<>>),
+          Rg("nonneg", Zero, "none", Zero, Zero, <<>>, <<>>),
+          Rg("box", Zero, "scalar", Zero, One, <<>>, <<>>), Rg("box", Zero, "scalar", QNeg(One), Two, <<>>, <<>>),
+          Rg("box", Zero, "scalar", Zero, PInf, <<>>, <<>>),               \* lower bound only
+          Rg("box", Zero, "scalar", NInf, One, <<>>, <<>>),                \* upper bound only
+          Rg("box", Zero, "scalar", NInf, PInf, <<>>, <<>>),               \* no bound: plain least squares
+          Rg("box", Zero, "vector", Zero, Zero, <<NInf, Zero, QNeg(One)>>, <<One, PInf, PInf>>) }   \* mixed per component
 
-\* admissible pairs <<xs_i, g_i>> of one coordinate: g_i in the sub-differential of h at xs_i
-Pairs(rg) ==
+LoAt(rg, i) == IF rg.bform = "vector" THEN rg.vlo[i] ELSE rg.lo
+UpAt(rg, i) == IF rg.bform = "vector" THEN rg.vup[i] ELSE rg.up
+
+\* admissible pairs <<xs_i, g_i>> of coordinate i: g_i in the sub-differential of h at xs_i
+BoxPairs(lo, up) ==
+    IF IsFin(lo) /\ IsFin(up)
+      THEN { <<lo, Zero>>, <<lo, R(-2)>>, <<QMul(Half, QAdd(lo, up)), Zero>>, <<up, Zero>>, <<up, One>> }
+    ELSE IF IsFin(lo) THEN { <<lo, Zero>>, <<lo, R(-2)>>, <<QAdd(lo, Half3), Zero>> }
+    ELSE IF IsFin(up) THEN { <<up, Zero>>, <<up, One>>, <<QSub(up, Two), Zero>> }
+    ELSE { <<Half, Zero>>, <<R(-1), Zero>> }
+BoxPairs3(lo, up) ==
+    IF IsFin(lo) /\ IsFin(up) THEN { <<lo, R(-2)>>, <<QMul(Half, QAdd(lo, up)), Zero>>, <<up, Zero>> }
+    ELSE IF IsFin(lo) THEN { <<lo, R(-2)>>, <<QAdd(lo, Half3), Zero>> }
+    ELSE IF IsFin(up) THEN { <<up, One>>, <<QSub(up, Two), Zero>> }
+    ELSE { <<Half, Zero>>, <<R(-1), Zero>> }
+
+Pairs(rg, i) ==
     CASE rg.h = "l1" ->
             { <<R(-1), QNeg(rg.lam)>>, <<R(2), rg.lam>>, <<Half, rg.lam>>,
               <<Zero, Zero>>, <<Zero, QMul(Half, rg.lam)>>, <<Zero, QNeg(rg.lam)>> }
       [] rg.h = "nonneg" ->
             { <<One, Zero>>, <<Half3, Zero>>, <<Zero, Zero>>, <<Zero, R(-1)>>, <<Zero, R(-3)>> }
-      [] rg.h = "box" ->
-            { <<rg.lo, Zero>>, <<rg.lo, R(-2)>>, <<QMul(Half, QAdd(rg.lo, rg.up)), Zero>>, <<rg.up, Zero>>, <<rg.up, One>> }
+      [] rg.h = "box" -> BoxPairs(LoAt(rg, i), UpAt(rg, i))
 
-InSubdiff(rg, xi, gi) ==
+InSubdiff(rg, i, xi, gi) ==
     CASE rg.h = "l1"     -> IF xi # Zero THEN gi = QMul(rg.lam, RSign(xi)) ELSE RLe(RAbs(gi), rg.lam)
       [] rg.h = "nonneg" -> RLe(Zero, xi) /\ (IF xi = Zero THEN RLe(gi, Zero) ELSE gi = Zero)
-      [] rg.h = "box"    -> /\ RLe(rg.lo, xi) /\ RLe(xi, rg.up)
-                            /\ (xi = rg.lo => RLe(gi, Zero)) /\ (xi = rg.up => RLe(Zero, gi))
-                            /\ ((xi # rg.lo /\ xi # rg.up) => gi = Zero)
+      [] rg.h = "box"    -> LET lo == LoAt(rg, i)  up == UpAt(rg, i) IN
+                            /\ ELe(lo, xi) /\ ELe(xi, up)
+                            /\ (xi = lo => RLe(gi, Zero)) /\ (xi = up => RLe(Zero, gi))
+                            /\ ((xi # lo /\ xi # up) => gi = Zero)         \* no multiplier without an active FINITE bound
 
 \* for n = 3 only three pairs per coordinate (interior, boundary with zero and with non-zero multiplier)
-PairsN(rg, n) ==
-    IF n = 2 THEN Pairs(rg)
+PairsN(rg, n, i) ==
+    IF n = 2 THEN Pairs(rg, i)
     ELSE CASE rg.h = "l1"     -> { <<R(-1), QNeg(rg.lam)>>, <<Zero, QMul(Half, rg.lam)>>, <<Zero, QNeg(rg.lam)>> }
            [] rg.h = "nonneg" -> { <<Half3, Zero>>, <<Zero, Zero>>, <<Zero, R(-3)>> }
-           [] rg.h = "box"    -> { <<rg.lo, R(-2)>>, <<QMul(Half, QAdd(rg.lo, rg.up)), Zero>>, <<rg.up, Zero>> }
+           [] rg.h = "box"    -> BoxPairs3(LoAt(rg, i), UpAt(rg, i))
+
+\* all choices of one admissible pair per coordinate
+PairChoices(rg, n) ==
+    LET all == UNION { PairsN(rg, n, i) : i \in 1..n }
+    IN { pr \in [1..n -> all] : \A i \in 1..n : pr[i] \in PairsN(rg, n, i) }
 
 KktProblems(As, n) ==
     UNION { { [kind |-> "kkt", n |-> n, A |-> A, reg |-> rg, xs |-> [i \in 1..n |-> pr[i][1]], g |-> [i \in 1..n |-> pr[i][2]]] :
-                A \in As, pr \in [1..n -> PairsN(rg, n)] } : rg \in Regs }
+                A \in As, pr \in PairChoices(rg, n) } : rg \in Regs }
 
 KktAll == IF Level = 1 THEN KktProblems(Unimod2Short, 2)
           ELSE KktProblems(Unimod2All, 2) \cup KktProblems(Unimod3, 3)
@@ -333,7 +428,7 @@ KktB(c) == LET A == MR(c.A) IN QVAdd(QMV(A, c.xs), QMV(MT(QMInv(A)), c.g))
 ProxH(rg, z, t) ==
     CASE rg.h = "l1"     -> F([i \in 1..Len(z) |-> Soft(z[i], QMul(t, rg.lam))])
       [] rg.h = "nonneg" -> F([i \in 1..Len(z) |-> RMax(z[i], Zero)])
-      [] rg.h = "box"    -> F([i \in 1..Len(z) |-> Clip(z[i], rg.lo, rg.up)])
+      [] rg.h = "box"    -> F([i \in 1..Len(z) |-> BoxProj1(z[i], LoAt(rg, i), UpAt(rg, i))])
 
 FrobSq(A) == QSumSeq([i \in 1..Len(A) |-> QDot(A[i], A[i])])
 \* two step sizes below 1/L (L = |A|_2^2 <= |A|_F^2)
@@ -343,7 +438,7 @@ HVal(rg, z) == IF rg.h = "l1" THEN QMul(rg.lam, QSumSeq([i \in 1..Len(z) |-> RAb
 InDom(rg, z) ==
     CASE rg.h = "l1"     -> TRUE
       [] rg.h = "nonneg" -> \A i \in 1..Len(z) : RLe(Zero, z[i])
-      [] rg.h = "box"    -> \A i \in 1..Len(z) : RLe(rg.lo, z[i]) /\ RLe(z[i], rg.up)
+      [] rg.h = "box"    -> \A i \in 1..Len(z) : ELe(LoAt(rg, i), z[i]) /\ ELe(z[i], UpAt(rg, i))
 Objective(A, b, rg, z) == QAdd(QMul(Half, QNorm2(QVSub(QMV(A, z), b))), HVal(rg, z))
 
 KktFixedPoint ==
@@ -353,7 +448,8 @@ KktFixedPoint ==
             st == KktSteps(pb)
         IN /\ \A i \in 1..pb.n : b[i][2] \in {1, 2, 4}                           \* dyadic data: exact in floating point
            /\ grad = F([i \in 1..pb.n |-> QNeg(pb.g[i])])                        \* stationarity: -grad = g
-           /\ \A i \in 1..pb.n : InSubdiff(pb.reg, pb.xs[i], pb.g[i])            \* g in dh(xs)
+           /\ \A i \in 1..pb.n : InSubdiff(pb.reg, i, pb.xs[i], pb.g[i])         \* g in dh(xs)
+           /\ \A i \in 1..pb.n : IsFin(pb.xs[i]) /\ IsFin(pb.g[i])               \* finite certificate, also for infinite bounds
            /\ \A t \in {st[1], st[2], One, R(3)} :                                \* fixed point for EVERY step
                  ProxH(pb.reg, QVSub(pb.xs, QVScale(t, grad)), t) = pb.xs
 
@@ -368,7 +464,9 @@ KktMinimiser ==
 EmitKkt ==
     (Emit /\ Run("kkt")) =>
         PrintT("@@CASE " \o ToJson([kind |-> "kkt", n |-> pb.n, A |-> pb.A, b |-> KktB(pb), h |-> pb.reg.h, lam |-> pb.reg.lam,
-                                    lo |-> pb.reg.lo, up |-> pb.reg.up, xs |-> pb.xs, g |-> pb.g,
+                                    bform |-> pb.reg.bform,
+                                    lo |-> [i \in 1..pb.n |-> Ext(LoAt(pb.reg, i))], up |-> [i \in 1..pb.n |-> Ext(UpAt(pb.reg, i))],
+                                    xs |-> pb.xs, g |-> pb.g,
                                     steps |-> KktSteps(pb)]) \o " @@END")
 
 (***************************************************************************)
